@@ -25,6 +25,12 @@ func (tree *Tree) Export(order TraverseOrderType) *Exporter {
 		errCh: make(chan error),
 	}
 
+	if tree.root == nil {
+		// the empty tree exports as the empty stream: Next reports ErrorExportDone
+		close(exporter.out)
+		return exporter
+	}
+
 	go func(traverseOrder TraverseOrderType) {
 		defer close(exporter.out)
 		defer close(exporter.errCh)
